@@ -805,6 +805,13 @@ func main() {
 		runCloneBase(*repo, *out)
 		return
 	}
+	if *which == "gconfigbuilder" {
+		if *out == "" {
+			*out = "../lean/Generated/GoGConfigBuilder.lean"
+		}
+		runGConfigBuilder(*repo, *out)
+		return
+	}
 	if *which == "gconfigextract" {
 		if *out == "" {
 			*out = "../lean/Generated/GoGConfigExtract.lean"
